@@ -2,6 +2,7 @@ package main
 
 import (
 	"fmt"
+	"sync"
 	"go/token"
 	"go/types"
 	"sort"
@@ -86,8 +87,24 @@ func implsOf(prog *ssa.Program) func(u *types.Interface) []types.Type {
 }
 
 // verifyFunc generates every obligation of one function under contract.
+var (
+	fnIndexByProg   = map[*ssa.Program]map[string]*ssa.Function{}
+	fnIndexByProgMu sync.Mutex
+)
+
+func progFnIndex(prog *ssa.Program) map[string]*ssa.Function {
+	fnIndexByProgMu.Lock()
+	defer fnIndexByProgMu.Unlock()
+	if ix, ok := fnIndexByProg[prog]; ok {
+		return ix
+	}
+	ix := map[string]*ssa.Function(buildFnIndex(prog))
+	fnIndexByProg[prog] = ix
+	return ix
+}
+
 func verifyFunc(prog *ssa.Program, fn *ssa.Function, ctr *Contract, all map[string]*Contract, preds map[string]predDef, findings map[string][]Finding) *Engine {
-	e := &Engine{sc: newSortCtx(ctr.Mode), prog: prog, contracts: all, preds: preds, declared: map[string]bool{}, hsort: map[string]string{}}
+	e := &Engine{fnIndex: progFnIndex(prog), sc: newSortCtx(ctr.Mode), prog: prog, contracts: all, preds: preds, declared: map[string]bool{}, hsort: map[string]string{}}
 	e.sc.impls = implsOf(prog)
 	e.findings = findings
 	name := pkgLabel(ctr.Pkg) + "." + ctr.Fn
@@ -95,6 +112,14 @@ func verifyFunc(prog *ssa.Program, fn *ssa.Function, ctr *Contract, all map[stri
 	f := &frame{e: e, fn: fn, vals: map[ssa.Value]Val{}, reach: map[*ssa.BasicBlock]string{}, exitSt: map[*ssa.BasicBlock]*State{},
 		edge: map[[2]int]string{}, ctr: ctr, name: name, params: map[string]Val{}, safety: ctr.NoPanic}
 	e.curFrame = f
+	if len(ctr.Orders) > 0 {
+		// comparator obligations are generated from the closure alone; a contract
+		// that has nothing else does not need the enclosing body
+		verifyOrders(e, prog, fn, ctr, name)
+		if len(ctr.Requires)+len(ctr.Ensures)+len(ctr.CallAsserts)+len(ctr.Loops)+len(ctr.Traverses)+len(ctr.Resets) == 0 && !ctr.NoPanic {
+			return e
+		}
+	}
 	st0 := &State{heaps: map[string]string{}}
 	for _, p := range fn.Params {
 		srt := e.sc.sortOf(p.Type())
